@@ -7,7 +7,19 @@ pub struct Plan {
     pub n_cases: usize,
 }
 
+/// properties with a second small-scope sweep in the thorough tier (`small_scope2`)
+const SMALL2_PROPS: [&str; 5] = ["C04", "C11", "C12", "C14", "C19"];
+/// every DAG on 4 (then 3) nodes x every assignment of the ids
+pub const SMALL2: usize = 64 * 24 + 8 * 6;
+
 pub fn n_cases(prop: &str, tier: &str) -> usize {
+    if tier != "quick" && SMALL2_PROPS.contains(&prop) {
+        return SMALL2 + n_cases_base(prop, tier);
+    }
+    n_cases_base(prop, tier)
+}
+
+fn n_cases_base(prop: &str, tier: &str) -> usize {
     let quick = tier == "quick";
     match prop {
         "C12" => if quick { 3000 } else { 100_000 },
@@ -23,6 +35,115 @@ pub fn n_cases(prop: &str, tier: &str) -> usize {
 }
 
 pub fn gen_case(prop: &str, tier: &str, rng: &mut Rng, idx: usize) -> Case {
+    if tier != "quick" && SMALL2_PROPS.contains(&prop) {
+        if idx < SMALL2 {
+            return small_scope2(prop, idx);
+        }
+        return gen_case_base(prop, tier, rng, idx - SMALL2);
+    }
+    gen_case_base(prop, tier, rng, idx)
+}
+
+/// Small-scope exhaustive sweep for the query properties: every DAG on 4 (then 3) nodes (every
+/// subset of the forward edges of a topological order), every assignment of the ids to the nodes;
+/// then EVERY query of the property on it (all ordered pairs / all root-leaf-set combinations).
+fn small_scope2(prop: &str, idx: usize) -> Case {
+    let mut c = Case::new("small-scope-exhaustive");
+    let (n, i) = if idx < 64 * 24 { (4usize, idx) } else { (3usize, idx - 64 * 24) };
+    let nperm: usize = (1..=n).product();
+    let mask = i / nperm;
+    let idp = nth_perm(n, i % nperm);
+    // C19 is about HP:1 and HP:118: both are among the ids, in every position of the DAG
+    let pool: [u32; 4] = if prop == "C19" { [1, 57, 118, 400] } else { [3, 57, 400, 9_999_999] };
+    let pool_n: Vec<u32> = if prop == "C19" && n == 3 { vec![1, 57, 118] } else { pool[..n].to_vec() };
+    let ids: Vec<u32> = (0..n).map(|k| pool_n[idp[k]]).collect();
+    c.op("new".to_string());
+    for id in &ids {
+        c.op(format!("term {} {}", id, name("t")));
+    }
+    c.op("complete".to_string());
+    let mut e = 0;
+    let mut nedge = 0u64;
+    let mut edges: Vec<(usize, usize)> = vec![];
+    for child in 1..n {
+        for parent in 0..child {
+            if mask & (1 << e) != 0 {
+                c.op(format!("parent {} {}", ids[parent], ids[child]));
+                edges.push((parent, child));
+                nedge += 1;
+            }
+            e += 1;
+        }
+    }
+    c.op("connect".to_string());
+    for k in 0..3 {
+        c.op(format!("ann {} 1 {} {}", KINDS[k], name("r"), ids[n - 1]));
+        c.op(format!("ann {} 2 {} {}", KINDS[k], name("s"), ids[1]));
+        if k > 0 {
+            c.op(format!("ann {} 3 {} {}", KINDS[k], name("u"), ids[0]));
+        }
+    }
+    c.op("ic".to_string());
+    c.op(format!("build {} 0", if prop == "C19" { "def" } else { "min" }));
+    match prop {
+        "C04" => {
+            for a in ["graphic", "resnik", "lin", "jc", "relevance", "informationcoefficient", "distance", "mutation"] {
+                c.op(format!("sim 0 {} g", name(a)));
+                c.op(format!("sim 0 {} o", name(a)));
+            }
+        }
+        "C11" => {
+            c.op("dist 0".to_string());
+            c.op("oracle paths 0".to_string());
+        }
+        "C12" => c.op("anc2 0".to_string()),
+        "C14" => {
+            // descendants-or-self of every node, then every non-empty leaf set below every root
+            let mut below: Vec<Vec<usize>> = (0..n).map(|r| vec![r]).collect();
+            for r in 0..n {
+                let mut i = 0;
+                while i < below[r].len() {
+                    let x = below[r][i];
+                    for (p, ch) in &edges {
+                        if *p == x && !below[r].contains(ch) {
+                            below[r].push(*ch);
+                        }
+                    }
+                    i += 1;
+                }
+            }
+            let mut dst = 1u32;
+            for r in 0..n {
+                let b = &below[r];
+                for m in 1u32..(1 << b.len()) {
+                    let leaves: Vec<u32> = (0..b.len()).filter(|j| m >> j & 1 == 1).map(|j| ids[b[j]]).collect();
+                    let ls = crate::proto::ids(leaves.iter().copied());
+                    c.op(format!("sub 0 {dst} {} {ls}", ids[r]));
+                    c.op(format!("oracle sub 0 {} {ls}", ids[r]));
+                    c.op(format!("oracle closure {dst}"));
+                    c.op(format!("oracle inherit {dst}"));
+                    dst += 1;
+                }
+                // one leaf outside the root's branch: refused
+                if let Some(out) = (0..n).find(|x| !b.contains(x)) {
+                    c.op(format!("sub 0 {dst} {} {}", ids[r], ids[out]));
+                    dst += 1;
+                }
+            }
+        }
+        "C19" => {
+            c.op("dump 0".to_string());
+            c.op("oracle defaults 0".to_string());
+        }
+        _ => {}
+    }
+    c.stat("small_scope_cases", 1);
+    c.stat("small_scope_edges", nedge);
+    c.nontrivial = nedge >= 2;
+    c
+}
+
+fn gen_case_base(prop: &str, tier: &str, rng: &mut Rng, idx: usize) -> Case {
     match prop {
         "C12" => c12(rng, idx),
         "C20" => c20(rng, tier, idx),
